@@ -19,7 +19,7 @@ def run(ctx):
     lc.report_errors(ctx, errors, "C04_")
     lc.check(ctx, "LayoutC04.cfg", recs, meta, "C04_")
     # conformance of the operational model with the observed layerings: drift is reported, never a verdict
-    sub = [r for r in recs if r["lattice"] == 1 and r.get("fresh") == 1 and len(r["labels"]) <= 60]
+    sub = [r for r in recs if r["lattice"] == 1 and r.get("fresh") == 1 and len(r["labels"]) <= 60][::(3 if quick else 1)]
     drift, st = core.validate_records("DistDrift", "DistDrift.cfg", sub, per_shard=300, heap="3g")
     ctx.states += st["distinct"]
     ctx.transitions += st["generated"]
